@@ -316,7 +316,7 @@ fn main() {
         ctx.rep.require("declined.exact");
         ctx.rep.require("branch.bellerophon_error_check");
     } else {
-        for k in ["branch.lemire_second_product", "branch.lemire_tie_to_even", "branch.lemire_subnormal", "branch.lemire_w_w1_disagree"] {
+        for k in ["branch.lemire_second_product", "branch.lemire_tie_to_even", "branch.lemire_subnormal", "branch.lemire_w_w1_disagree", "branch.lemire_lo_max_fallback"] {
             ctx.rep.require(k);
         }
     }
